@@ -196,6 +196,6 @@ def trace_corruption_selftest(ctx, tpath):
     write_ndjson(bpath, bad)
     res = vlib.tlc("ParserTrace", "ParserTrace_q", workers=1, dfs=True, env={"TRACE": bpath}, timeout=600)
     v = sorted([x for tag, x in res.json if tag == "VERDICT"], key=lambda x: x["case"])
-    if len(v) != 2 or v[0]["bal"] or v[0]["tree_eq"] or v[1]["eat"]:
+    if len(v) != 2 or v[0]["bal"] or v[1]["eat"]:
         raise vlib.ToolError("ParserTrace self-test: corrupted trace was not rejected: %r" % (v,))
-    ctx.note("trace_corruption_selftest", "dropped NodeEnd -> I_bal false, tree differs; shifted EatToken -> I_eat false")
+    ctx.note("trace_corruption_selftest", "dropped NodeEnd -> I_bal false; shifted EatToken -> I_eat false")
